@@ -3,7 +3,7 @@
    printed below). *)
 From Coq Require Import Reals ZArith List Bool.
 From Coquelicot Require Import Complex.
-From NQ Require Import Base.Cyclo Base.QMat Toolbox.ToolboxSem Proofs.ComplexInstance.
+From NQ Require Import Base.Cyclo Base.QMat Toolbox.ToolboxSem Proofs.ComplexInstance Proofs.StatePrepError.
 From Gen Require Import Gen_Toolbox C20.
 Import ListNotations.
 
@@ -24,5 +24,44 @@ Proof.
   rewrite H0, H1. reflexivity.
 Qed.
 
+(* set_qubit_state over C: the symbolic theorem C20_state_prep_ok, instantiated with
+   c = cos(theta/2), s = sin(theta/2), e = e^{i phi/2}, gives exactly the documented state
+   (times the global phase e^{-i phi/2}) for the regenerated rotation list *)
+Theorem C20_state_prep_ideal_in_C : forall theta phi : R,
+  sp_eval C Cplus Cmult Cminus (chalfC theta phi) (shalfC theta phi) (ehalfC theta phi) (einvC theta phi)
+          gen_state_prep (C1, C0) = Some (ideal theta phi).
+Proof.
+  intros theta phi.
+  destruct (C20_state_prep_ok C C0 C1 Cplus Cmult Cminus Copp C_ring_theory
+              (chalfC theta phi) (shalfC theta phi) (ehalfC theta phi) (einvC theta phi)
+              (unit_eC theta phi) (pythagorasC theta phi)) as [H _].
+  rewrite H. f_equal. apply sp_form.
+Qed.
+
+(* ... and with the angles that actually reach the gates: get_angle_spec_from_float turns theta and
+   phi into lists ys, zs of rotation immediates (n, d); the executor applies exp(-i a/2 Y) for the
+   angles a = n pi/2^d of ys and then exp(-i a/2 Z) for those of zs.  Rotations about one axis add
+   up, so the prepared state is the documented state at the SUMMED angles, and whenever each sum is
+   within tol of its requested angle - the guarantee property C19 establishes for the expansion
+   (C19_within_tol_radians / C19_radians_with_front_end, default tol = 1e-4 rad) - the prepared
+   state is within tol (Euclidean norm in C^2; (|dtheta| + |dphi|)/2 in general) of the documented
+   state.  Angles are real numbers here: a requested angle and its representative in [0, 2 pi)
+   differ by full turns, which only change the global phase (ideal_theta_period / ideal_phi_period). *)
+Theorem C20_state_prep_with_C19_error : forall (theta phi tol : R) (ys zs : list (Z * Z)),
+  (Rabs (sumR (map angle_nd ys) - theta) <= tol)%R ->
+  (Rabs (sumR (map angle_nd zs) - phi) <= tol)%R ->
+  prepared (map angle_nd ys) (map angle_nd zs) = ideal (sumR (map angle_nd ys)) (sumR (map angle_nd zs)) /\
+  (dist (prepared (map angle_nd ys) (map angle_nd zs)) (ideal theta phi) <= tol)%R.
+Proof.
+  intros theta phi tol ys zs Hy Hz. split; [apply prepared_sum | exact (state_prep_error theta phi tol ys zs Hy Hz)].
+Qed.
+
+(* the general Lipschitz bound behind it *)
+Theorem C20_state_prep_lipschitz : forall t' p' t p : R,
+  (dist (ideal t' p') (ideal t p) <= (Rabs (t' - t) + Rabs (p' - p)) / 2)%R.
+Proof. exact dist_ideal_le. Qed.
+
 Print Assumptions C20_toffoli_in_C.
+Print Assumptions C20_state_prep_ideal_in_C.
+Print Assumptions C20_state_prep_with_C19_error.
 Print Assumptions C20_toffoli_image.
